@@ -16,6 +16,7 @@ package main
 // complete report identical public material; their shares sign under it (BLS).
 
 import (
+	"os"
 	"bytes"
 	"context"
 	"crypto/sha256"
@@ -49,7 +50,7 @@ func runDkgStep(r *prng.R, s *out.Sink, tier string) {
 		t := 2 + r.Intn(n-1)
 		// one run in four fault-free, one in four with exactly one substituted share / commitment / key and nothing else
 		// wrong (so that the run goes all the way to the verdict), the rest a random mix
-		scenario := []string{"honest", "one-share", "mix", "mix", "honest", "one-reveal", "mix", "one-commit", "honest", "one-share", "mix", "mix"}[i%12]
+		scenario := []string{"honest", "one-share", "mix", "mix", "honest", "one-reveal", "mix", "one-commit", "honest", "one-share", "mix", "mix"}[(i/2)%12] // (i/2: every scenario with both backends)
 		if scenario == "one-share" && n == t && n < 5 {
 			n++ // the cross-check needs t < n
 		}
@@ -291,6 +292,19 @@ func dkgStepRun(kind string, r *prng.R, s *out.Sink, n, t, msgLen int, scenario 
 			if ev != "park" {
 				finished = true
 			}
+		} else if !finished {
+			// nothing new was stored, so the waiting loop is not signalled — by the code as it stands. Should it wake up all
+			// the same (a changed OnMsg that signals for, or stores, a value it ought to ignore), the wake-up is taken as a
+			// step of its own, so that the history stays aligned and the monitors below see the run to its end
+			select {
+			case ev := <-w.events:
+				s.Count("dkg/unexpected-wake")
+				logWake(ev, takeOut())
+				if ev != "park" {
+					finished = true
+				}
+			case <-time.After(2 * time.Millisecond):
+			}
 		}
 		return true
 	}
@@ -459,6 +473,9 @@ func dkgStepRun(kind string, r *prng.R, s *out.Sink, n, t, msgLen int, scenario 
 		}
 	}
 	finishRun()
+	if os.Getenv("VERIF_DKG_DEBUG") != "" {
+		fmt.Fprintf(os.Stderr, "DEBUG %s vres=%v mismatchFrom=%d tamperedFirst=%v oneDone=%v\n", desc, vres != nil, mismatchFrom, tamperedFirst, oneDone)
+	}
 	// ---- monitors --------------------------------------------------------------------------------------------------
 	if revealedAtCommits >= 0 && revealedAtCommits != n-1 {
 		s.Violate("C05", fmt.Sprintf("the party under test disclosed its public key when it held the commitments of %d of the %d other participants", revealedAtCommits, n-1), desc+"\n"+strings.Join(hist, "\n"))
